@@ -54,7 +54,8 @@ def acyclification(
         bidirected_G.add_nodes_from(G.nodes)
 
     # first detect all strongly connected components
-    scomps = nx.strongly_connected_components(directed_G)
+    scomps = list(nx.strongly_connected_components(directed_G))
+    scomp_of = {node: comp for comp in scomps for node in comp}
 
     # loop over all strongly connected components and their nodes
     for comp in scomps:
@@ -73,11 +74,12 @@ def acyclification(
                     continue
                 scomp_parents.add(parent)
 
-            # get any bidirected edges pointing to elements of SC
+            # get any bidirected edges pointing to elements of SC; the whole
+            # strongly connected component of such a neighbor is connected to the SC
             for nbr in bidirected_G.neighbors(node):
                 if nbr in comp:
                     continue
-                scomp_c_components.add(nbr)
+                scomp_c_components.update(scomp_of[nbr])
 
         # first remove all directed edges inside the cycle; the nodes themselves and
         # their edges to other components stay, so that components processed earlier
